@@ -70,7 +70,7 @@ type result struct {
 	Files   map[string][]typeDecl `json:"files"`
 	Ifaces  []iface               `json:"ifaces"`
 	Structs []structDecl          `json:"structs"`
-	Named   [][2]string           `json:"named"` // (import name, type name) declared as a non-alias type in a qualified package
+	Named   [][3]string           `json:"named"` // (import name, type name, class) declared as a non-alias type in a qualified package; class = struct | basic | other
 	Error   string                `json:"error,omitempty"`
 }
 
@@ -121,7 +121,24 @@ func parseDir(dir string) (map[string]*ast.File, error) {
 	return files, nil
 }
 
-func structsOf(pkg string, files map[string]*ast.File, out *[]structDecl, named *[][2]string) {
+var basicNames = map[string]bool{"string": true, "bool": true, "int": true, "int8": true, "int16": true, "int32": true,
+	"int64": true, "uint": true, "uint8": true, "uint16": true, "uint32": true, "uint64": true, "uintptr": true,
+	"float32": true, "float64": true, "complex64": true, "complex128": true, "byte": true, "rune": true}
+
+// classOf classifies the right-hand side of a type declaration syntactically
+func classOf(e ast.Expr) string {
+	switch t := e.(type) {
+	case *ast.StructType:
+		return "struct"
+	case *ast.Ident:
+		if basicNames[t.Name] {
+			return "basic"
+		}
+	}
+	return "other"
+}
+
+func structsOf(pkg string, files map[string]*ast.File, out *[]structDecl, named *[][3]string) {
 	names := make([]string, 0, len(files))
 	for n := range files {
 		names = append(names, n)
@@ -141,7 +158,7 @@ func structsOf(pkg string, files map[string]*ast.File, out *[]structDecl, named 
 					continue
 				}
 				if pkg != "" && !ts.Assign.IsValid() {
-					*named = append(*named, [2]string{pkg, ts.Name.Name})
+					*named = append(*named, [3]string{pkg, ts.Name.Name, classOf(ts.Type)})
 				}
 				st, ok := ts.Type.(*ast.StructType)
 				if !ok {
@@ -175,7 +192,7 @@ func structsOf(pkg string, files map[string]*ast.File, out *[]structDecl, named 
 
 func analyse(arg string) result {
 	parts := strings.Split(arg, ",")
-	res := result{Dir: parts[0], Files: map[string][]typeDecl{}, Ifaces: []iface{}, Structs: []structDecl{}, Named: [][2]string{}}
+	res := result{Dir: parts[0], Files: map[string][]typeDecl{}, Ifaces: []iface{}, Structs: []structDecl{}, Named: [][3]string{}}
 	files, err := parseDir(parts[0])
 	if err != nil {
 		res.Error = err.Error()
